@@ -533,7 +533,9 @@ func joinLabels(s *profile.Sample) string {
 	var labels []string
 	for key, vals := range s.Label {
 		for _, v := range vals {
-			labels = append(labels, key+":"+v)
+			// The joined labels name a tag that is only shown in graph
+			// output, with a DOT line break between labels.
+			labels = append(labels, escapeForDot(key+":"+v))
 		}
 	}
 	sort.Strings(labels)
